@@ -29,7 +29,9 @@ func (c *Ctx) Applicable(schema any, inst any, path string, visit func(objPath, 
 		}
 		saved := c.Root
 		c.Root = newRoot
+		c.underRef++
 		c.Applicable(t, inst, path, visit)
+		c.underRef--
 		c.Root = saved
 		return
 	}
@@ -94,6 +96,12 @@ func (c *Ctx) Applicable(schema any, inst any, path string, visit func(objPath, 
 				c.Applicable(items, e, path+"/"+strconv.Itoa(i), visit)
 			}
 		case []any:
+			if len(items) == 0 && c.Emu.EmptyTupleLostUnderRef && c.underRef > 0 {
+				if _, has := s["additionalItems"].(map[string]any); has && len(v) > 0 {
+					c.fired("empty-tuple-lost-by-reference-expansion")
+				}
+				break
+			}
 			for i, e := range v {
 				if i < len(items) {
 					c.Applicable(items[i], e, path+"/"+strconv.Itoa(i), visit)
